@@ -66,7 +66,7 @@ let parse_apro (s:string) : (z list -> pmeta option) =
   let ov x = if x = "n" then None else Some (let h = rest x in if h = "" then [] else bytes_of_hex h) in
   let tbl = if s = "-" then [] else List.map (fun e ->
       match split_on ',' e with
-      | [p; a; b; c] -> ((if p = "-" then [] else bytes_of_hex p), { enabled_by = ov a; depends = ov b; default_depends = ov c })
+      | [p; a; b; c] -> ((if p = "-" then [] else bytes_of_hex p), { enabled_by = ov a; depends = ov b; default_depends = ov c; port_name = [] })
       | _ -> failwith "apro") (split_on ';' s) in
   fun p -> List.assoc_opt p tbl
 
